@@ -271,3 +271,65 @@ func vh_C14_L5_in_progress_keeps_request() {
 	vassert(len(a.reconfigs) == 0 && !a.tReconfig.isRunning(), "a final answer ends the request")
 	vcover("end")
 }
+
+// C14.L6: every closed stream gets its reset request. A first request is still unanswered and
+// its timer has just expired (the retransmission is due) when a second stream is closed:
+// the writer's round retransmits the old request and also builds the request for the second
+// stream; nothing is dropped.
+func vh_C14_L6_reset_request_built_alongside_a_retransmission() {
+	a, _ := vNewAssoc()
+	s1, _ := a.OpenStream(1, PayloadTypeWebRTCBinary)
+	s2, _ := a.OpenStream(2, PayloadTypeWebRTCBinary)
+	a.cwnd, a.rwnd = 1<<20, 1<<20
+	vassert(s1.Close() == nil, "close 1")
+	_ = vWriterWake(a) // request for stream 1 goes out (and is lost)
+	vassert(len(a.reconfigs) == 1 && a.tReconfig.isRunning(), "one request outstanding")
+	vassert(s2.Close() == nil, "close 2")
+	vassert(vFireRtx(a, a.tReconfig), "the reconfig timer expires in the same round")
+	named := map[uint16]bool{}
+	for _, raw := range vWriterWake(a) {
+		if p := vDecode(raw); p != nil {
+			for _, c := range p.chunks {
+				if rc, ok := c.(*chunkReconfig); ok {
+					if rq, ok := rc.paramA.(*paramOutgoingResetRequest); ok {
+						for _, id := range rq.streamIdentifiers {
+							named[id] = true
+						}
+					}
+				}
+			}
+		}
+	}
+	_ = vWriterWake(a)
+	vassert(named[1], "the unanswered request is retransmitted")
+	vassert(named[2] || len(a.reconfigs) == 2, "and the second stream's request is built too")
+	vassert(len(a.reconfigs) == 2, "both requests are outstanding afterwards")
+	vcover("end")
+}
+
+// C14.L7: an unanswered reset request is repeated for as long as the association lives: over
+// twelve consecutive expiries of the reconfig timer (every copy lost) the request goes out
+// again each time and the timer keeps running.
+func vh_C14_L7_reset_request_repeated_for_ever() {
+	a, _ := vNewAssoc()
+	s, _ := a.OpenStream(1, PayloadTypeWebRTCBinary)
+	a.cwnd, a.rwnd = 1<<20, 1<<20
+	vassert(s.Close() == nil, "close")
+	_ = vWriterWake(a)
+	for i := 0; i < 12; i++ {
+		vassert(vFireRtx(a, a.tReconfig), "the reconfig timer is running and expires")
+		again := false
+		for _, raw := range vWriterWake(a) {
+			if p := vDecode(raw); p != nil {
+				for _, c := range p.chunks {
+					if _, ok := c.(*chunkReconfig); ok {
+						again = true
+					}
+				}
+			}
+		}
+		vassert(again, "the request is sent again after every expiry")
+	}
+	vassert(a.tReconfig.isRunning() && len(a.reconfigs) == 1, "and is still pending and timed")
+	vcover("end")
+}
